@@ -596,6 +596,12 @@ def rule_state_validated(repo, col):
                 if lp is not slp and unparse(lp.iter) == unparse(slp.iter) \
                         and cfg.dominates(lnode, s_):
                     covered = True
+        elif isinstance(s_.stmt, ast.Expr) and s_.stmt.value.args:
+            # self._state.update(X) after a validating loop over X
+            for lp, lnode in val_loops:
+                if unparse(lp.iter) == unparse(s_.stmt.value.args[0]) and \
+                        cfg.dominates(lnode, s_):
+                    covered = True
         if not covered:
             leaks.append(s_)
     col.check(not leaks, rule, ERR, q + '.setter', 'validated-store',
